@@ -30,8 +30,8 @@ RULE = ("programs from the typed generator ('planner_state' and default profiles
         "non-trivial = the pickled plan contains at least one non-source expression; distinct by (program, form)")
 ASSUMPTIONS = ["cloudpickle-free: plain pickle as used by dask for collections", "receiver has PYTHONPATH to the same user modules"]
 CONFIG = {
-    "quick": {"budget_s": 50, "programs": 110, "case_timeout_s": 120},
-    "thorough": {"budget_s": 600, "programs": 800, "case_timeout_s": 240},
+    "quick": {"budget_s": 50, "programs": 110, "case_timeout_s": 600},
+    "thorough": {"budget_s": 600, "programs": 400, "case_timeout_s": 240},
 }
 FORMS = ["logical", "simplified", "optimized", "lowered"]
 
@@ -118,7 +118,7 @@ def run_case(case):
             # "another process" means another hash seed as well (the worker runs with PYTHONHASHSEED=0)
             env["PYTHONHASHSEED"] = ["random", "1", "2", "random"][len(path) % 4]
             try:
-                r = subprocess.run([sys.executable, "-W", "ignore", "-m", "vmon.receiver", path], env=env, capture_output=True, text=True, timeout=100)
+                r = subprocess.run([sys.executable, "-W", "ignore", "-m", "vmon.receiver", path], env=env, capture_output=True, text=True, timeout=400)
             except subprocess.TimeoutExpired:
                 bump("receiver_timeout")
                 continue
